@@ -48,13 +48,13 @@ theorem nested_query_ctx (c : Ctx) (h : Ctx.Governed c) (fl : QFlags) (ns : Bool
   rw [setDefaults_outer_wins _ hg]
   split <;> simp [Ctx.q, Ctx.aq, Ctx.sq, Ctx.asKw, Ctx.dia]
 
-/-- set-operation operands: quote and dialect of a governed context are kept -/
+/-- set-operation operands of any class see the enclosing conventions -/
 theorem setop_ctx (c : Ctx) (h : Ctx.Governed c) (fl : QFlags) :
-    (setopCtx c fl).q = c.q ∧ (setopCtx c fl).dia = c.dia ∧ (setopCtx c fl).aq = c.aq := by
-  obtain ⟨h1, _, _, _, h5⟩ := h
-  cases c with
-  | mk quote secondary aliasQuote asKeyword dialect wa wn sq sc ga pm =>
-    cases quote <;> cases dialect <;> simp_all [setopCtx, Ctx.q, Ctx.dia, Ctx.aq]
+    (setopCtx c fl).q = c.q ∧ (setopCtx c fl).dia = c.dia ∧ (setopCtx c fl).aq = c.aq ∧
+    (setopCtx c fl).asKw = c.asKw ∧ (setopCtx c fl).sq = c.sq := by
+  simp only [setopCtx]
+  rw [setDefaults_outer_wins _ h]
+  simp [Ctx.q, Ctx.aq, Ctx.sq, Ctx.asKw, Ctx.dia]
 
 /-- function arguments keep the identifier quote and the dialect (everything else is re-defaulted) -/
 theorem fn_ctx (c : Ctx) : c.fnBase.q = c.q ∧ c.fnBase.dia = c.dia ∧ c.fnArg.q = c.q ∧ c.fnArg.dia = c.dia := by
